@@ -123,7 +123,11 @@ def bits_of_len(r, n, key=None, mutate=0.3):
 
 CRC_CFGS = ["crc7", "crc8", "crc9", "crc16", "crc32",
             [16, 0x1021, 0xFFFF, 0x0000, 0, 0], [16, 0x8005, 0x0000, 0x0000, 1, 1], [32, 0x04C11DB7, 0xFFFFFFFF, 0xFFFFFFFF, 1, 1],
-            [12, 0x80F, 0, 0, 0, 0], [24, 0x864CFB, 0xB704CE, 0, 0, 0], [5, 0x15, 0, 0, 0, 0], [8, 0x07, 0, 0x55, 0, 1], [10, 0x233, 0, 0, 0, 0]]
+            [12, 0x80F, 0, 0, 0, 0], [24, 0x864CFB, 0xB704CE, 0, 0, 0], [5, 0x15, 0, 0, 0, 0], [8, 0x07, 0, 0x55, 0, 1], [10, 0x233, 0, 0, 0, 0],
+            # same width as a library configuration, other polynomial (the lookup-table cache is keyed by both)
+            [8, 0x31, 0, 0, 0, 0], [9, 0x119, 0, 0, 0, 0], [32, 0x1EDC6F41, 0, 0, 0, 0], [16, 0x3D65, 0, 0xFFFF, 0, 0],
+            # two polynomials of a width the library itself never caches: whichever comes first must not decide the other's table
+            [12, 0xF13, 0, 0, 0, 0], [24, 0x5D6DCB, 0, 0, 0, 0], [10, 0x3D9, 0, 0, 0, 0], [5, 0x09, 0, 0, 0, 0]]
 
 
 def crc_data(r, le_ok=True):
@@ -257,6 +261,12 @@ def catalogue():
         g = (lambda n, key: lambda r: [X(from_corpus(r, key, n))])(n, keys.get(nm, "info96"))
         ep(f"{nm}.from_bytes", "pdu", ["crc"], g)
         ep(f"{nm}.as_bytes", "pdu", ["crc"], g)
+    for nm, n in (("csbk", 96), ("dataheader", 96), ("flc", 96), ("slc", 36), ("pi", 96), ("rate12", 96), ("rate34", 144), ("rate1", 192),
+                  ("slottype", 20), ("emb", 16), ("udp", 80)):
+        key = keys.get(nm) or {144: "info144", 192: "info192", 20: "slot20", 16: "emb16"}.get(n) or ("info96" if n == 96 else None)
+        g = (lambda n, key: lambda r: [B(bits_of_len(r, n, key, mutate=0.1))])(n, key)
+        ep(f"{nm}.as_bits_twice", "pdu", ["crc"], g)
+        ep(f"{nm}.repr_twice", "pdu", ["crc"], g)
     for nm, n in (("rate12", 96), ("rate34", 144), ("rate1", 192)):
         ep(f"{nm}.typed", "pdu", ["crc"], (lambda n: lambda r: [B(bits_of_len(r, n, {96: "r12_96", 144: "info144", 192: "info192"}[n])), I(r.randrange(5))])(n))
     ep("flc.repr", "pdu", ["rs"], lambda r: [B(bits_of_len(r, 96, "flc96"))])
@@ -282,6 +292,11 @@ def catalogue():
         hd = (lambda pre: lambda r: [X(hdap_sample(r, pre))])(svc[nm])
         ep(f"{nm}.from_bytes", "hytera", ["defaults"], hd)
         ep(f"{nm}.as_bytes", "hytera", ["defaults"], hd)
+    ep("hdap.as_bytes_twice", "hytera", ["defaults"], lambda r: [X(hdap_sample(r, None))])
+    ep("hrnp.as_bytes_twice", "hytera", ["defaults"], lambda r: [X(from_corpus(r, "hrnp", mutate=0.1))])
+    ep("hstrp.as_bytes_twice", "hytera", ["defaults"], lambda r: [X(from_corpus(r, "hstrp", mutate=0.1))])
+    ep("gpsdata.as_bytes_twice", "hytera", [], lambda r: [X(gps40(r))])
+    ep("burst.as_bytes_twice", "burst", ["crc", "matrices", "trellis", "bptc", "rs"], lambda r: [X(from_corpus(r, "burst33", 33, mutate=0.1)), I(r.randrange(3))])
     ep("hrnp.from_bytes", "hytera", ["defaults"], lambda r: [X(from_corpus(r, "hrnp"))])
     ep("hrnp.as_bytes", "hytera", ["defaults"], lambda r: [X(from_corpus(r, "hrnp"))])
     ep("hrnp.repr", "hytera", ["defaults"], lambda r: [X(from_corpus(r, "hrnp", mutate=0.1))])
@@ -319,6 +334,7 @@ def catalogue():
     ep("lrrp.get_attribute", "motorola", ["lrrp"], lambda r: [S(k) if isinstance(k := r.choice(LRRP_ATTRS), str) else I(k), r.choice([N, I(0), I(0x49), I(5)])])
     ep("lrrp.build_constants_table", "motorola", ["lrrp"], lambda r: [X(from_corpus(r, "mbxml", mutate=0.05))])
     tm = lambda r: [X(flip_hex(r, h) if r.random() < 0.3 else h) if (h := r.choice(TMS_SAMPLES + CORPUS.get("tms", []))) else X("")]  # noqa
+    ep("mbxml.as_bytes_twice", "motorola", ["lrrp"], lambda r: [X(from_corpus(r, "mbxml", mutate=0.1))])
     ep("tms.from_bytes", "motorola", [], tm)
     ep("tms.as_bytes", "motorola", [], tm)
     ep("tms.as_bytes_twice", "motorola", [], tm)
@@ -326,6 +342,7 @@ def catalogue():
     ep("ars.from_bytes", "motorola", [], ar)
     ep("ars.as_bytes", "motorola", [], ar)
     ep("ars.repr", "motorola", [], ar)
+    ep("ars.as_bytes_twice", "motorola", [], ar)
     # ---- utils
     ep("util.byteswap_bytes", "util", [], lambda r: [r.choice([X, XA])(rhex(r, r.choice([0, 1, 2, 3, 4, 33, 34])))])
     ep("util.byteswap_bytearray", "util", [], lambda r: [XA(rhex(r, r.choice([0, 1, 2, 3, 4, 33, 34])))])
@@ -476,6 +493,42 @@ def fresh_one(specs, ambient=0, par=12):
     return res
 
 
+def diff_excerpt(a, b, width=110):
+    """the region where two canonical strings start to differ"""
+    i = 0
+    n = min(len(a), len(b))
+    while i < n and a[i] == b[i]:
+        i += 1
+    lo = max(0, i - 50)
+    pre = "..." if lo else ""
+    return (pre + a[lo : i + width] + ("..." if len(a) > i + width else ""), pre + b[lo : i + width] + ("..." if len(b) > i + width else ""))
+
+
+def explain(history):
+    """(result of the last call when made first, result after the history), unabridged, cut to where they differ"""
+    rr = parallel([{"op": "first", "specs": [history[-1]], "full": True}, {"op": "seq", "calls": history, "probe": False, "full": True}], 2)
+    try:
+        return diff_excerpt(rr[0]["r"][0][0], rr[1]["r"][-1][0])
+    except Exception:
+        return None
+
+
+def source_fingerprint():
+    """(path, size, mtime) of every source file of the package the workers import"""
+    import importlib.util
+
+    spec = importlib.util.find_spec("okdmr.dmrlib")
+    root = list(spec.submodule_search_locations)[0]
+    out = []
+    for d, dirs, files in os.walk(root):
+        dirs[:] = sorted(x for x in dirs if x != "__pycache__")
+        for fn in sorted(files):
+            if fn.endswith(".py"):
+                st = os.stat(os.path.join(d, fn))
+                out.append((os.path.join(d, fn), st.st_size, st.st_mtime_ns))
+    return out
+
+
 def key_of(spec):
     return json.dumps(spec, sort_keys=True)
 
@@ -506,6 +559,7 @@ def run(ctx):
         "LocationProtocol's default gpsdata carries the date of the import day (date.today() in a default argument); it reaches as_bytes of a default-built StandardReport only and is compared with the import date, not across days",
     ]
     r = ctx.rng
+    fp0 = source_fingerprint()
     CAT = catalogue()
     names = sorted(CAT)
     ncpu = max(2, min(12, (os.cpu_count() or 4) - 2))
@@ -517,9 +571,10 @@ def run(ctx):
         ctx.count(f"fail:{kind}")
 
     # ---------------- argument pool
-    per_ep = ctx.budget(7, 40)
     pool = {}
     for nm in names:
+        # the entry points modelled in Lean get a larger pool (their results are also compared with the model)
+        per_ep = ctx.budget(10, 40) * (3 if nm.startswith("m.") else 1)
         seen = set()
         lst = []
         tries = 0
@@ -565,7 +620,9 @@ def run(ctx):
         ctx.case(("first", k), nontrivial=not res[0].startswith("ERR"))
         ctx.count(f"ep:{s['ep']}")
         ctx.count("result:ERR" if res[0].startswith("ERR") else "result:value")
-        if res[2]:
+        if res[2].startswith("TWICE-DIFFERS"):
+            fail("same-object-call-differs", {"history": [s], "index": 0}, f"{s['ep']}: serialising / printing the same object twice gives two different answers", expected=res[2].split(" | ")[0][14:], actual=res[2].split(" | ")[-1])
+        elif res[2]:
             ctx.count("in-place-repair-exempted")
         for ch in res[1]:
             fail("argument-mutated", {"history": [s], "index": 0, "argument": ch[0]}, f"{s['ep']} altered its argument buffer #{ch[0]}", expected=ch[1], actual=ch[2])
@@ -602,7 +659,7 @@ def run(ctx):
             npairs += 1
     ctx.count("ordered-pairs-sharing-state", npairs * 2)
     # random interleavings
-    nseq = ctx.budget(200, 5000)
+    nseq = ctx.budget(400, 5000)
     seqlen = 30
     weights = [3 if CAT[nm]["tags"] else 1 for nm in names]
     for _ in range(nseq):
@@ -679,6 +736,9 @@ def run(ctx):
                 if "r" in rr and rr["r"][-1][0] != exp:
                     best = c
                     break
+        ex = explain(best)
+        if ex and ex[0] != ex[1]:
+            exp, act = ex
         if len(best) == 1:
             fail("nondeterministic-result", {"history": best, "index": 0, "found_in": label},
                  f"{calls[i]['ep']} answers differently in two fresh interpreter states (time, randomness or unspecified memory reaches the result)", expected=exp, actual=act)
@@ -702,6 +762,10 @@ def run(ctx):
                      f"{s['ep']} depends on wall-clock time or randomness", expected=base, actual=[a[0], b[0]])
     ctx.count("ambient-calls", len(amb) * 2)
 
+    # the working tree must not change under a run that compares executions made at different moments
+    if source_fingerprint() != fp0:
+        raise Infra("the source tree of okdmr.dmrlib changed while the check was running (results of different moments are not comparable); run again")
+
     # ---------------- correspondence with the Lean model: history-free model of the modelled entry points + inventory
     if not ctx.search_only and ctx.driver_ok:
         for comp, pairs in model_lines(ctx, pool, ref, histories, resp).items():
@@ -720,8 +784,9 @@ def replay(obj):
     seq, first, pristine = rr[0], rr[1]["r"][0], rr[2]["probe"]
     last = seq["r"][-1]
     print(f"history of {len(hist)} call(s); last call: {hist[-1]['ep']} {json.dumps(hist[-1]['a'])[:300]}")
-    print("called first in a fresh interpreter :", first[0])
-    print("called after the history            :", last[0])
+    ex = explain(hist)
+    print("called first in a fresh interpreter :", ex[0] if ex and ex[0] != ex[1] else first[0])
+    print("called after the history            :", ex[1] if ex and ex[0] != ex[1] else last[0])
     mutated = [(s["ep"], ch) for s, res in zip(hist, seq["r"]) for ch in res[1]]
     for epn, ch in mutated:
         print(f"argument buffer #{ch[0]} of {epn} changed: {ch[1]} -> {ch[2]}")
